@@ -607,6 +607,41 @@ def inter_priming():
     return out
 
 
+def inter_reuse():
+    """the same function object offered again: under its taken name (with other options), under a
+    second name, as feature and command; thread decorator before / between / after; with and
+    without server parameter; then another function under the taken name"""
+    out = []
+    for kind in (0, 1):
+        A, B = (5, 13) if kind == 0 else (10, 11)
+        opts1 = (O_NONE, O_VALID) if kind == 0 else (O_NONE,)
+        opts2 = (O_NONE, O_VALID, O_BADFIELD) if kind == 0 else (O_NONE,)
+        mk = lambda n, o: [0, "m", 0, n, o] if kind == 0 else [0, "m", 1, n]
+        for par in (0, 1, 2):
+            for asy in (0, 1):
+                for o1 in opts1:
+                    for o2 in opts2:
+                        for tpos in (0, 1, 2):
+                            for pat in ("same", "second", "cross"):
+                                ops = [[0, "d", asy, par], [0, "d", 0, 0], [0, "m", 2]]      # f, g, thread dec 0
+                                if tpos == 0:
+                                    ops.append([0, "a", 0, 0])
+                                ops += [mk(A, o1), [0, "a", 1, 0]]                           # f under A
+                                if tpos == 1:
+                                    ops.append([0, "a", 0, 0])
+                                if pat == "same":
+                                    ops += [mk(A, o2), [0, "a", 2, 0]]                       # f again under A
+                                elif pat == "second":
+                                    ops += [mk(B, o2), [0, "a", 2, 0]]                       # f under B as well
+                                else:                                                        # f as the other kind too
+                                    ops += [[0, "m", 1, 10] if kind == 0 else [0, "m", 0, 5, o2], [0, "a", 2, 0]]
+                                if tpos == 2:
+                                    ops.append([0, "a", 0, 0])
+                                ops += [mk(A, O_NONE), [0, "a", 3, 1], [0, "a", 1, 0]]       # g under A; dec 1 on f again
+                                out.append({"k": "inter", "n": 1, "ops": ops})
+    return out
+
+
 def inter_random(rng):
     n = rng.choice([1, 1, 2, 3])
     ops, nf, nd, regd = [], [0] * n, [[] for _ in range(n)], [set() for _ in range(n)]
@@ -628,14 +663,9 @@ def inter_random(rng):
             nd[k].append(kind)
         else:
             i = rng.randrange(len(nd[k]))
-            if nd[k][i] == 2:
-                j = rng.randrange(nf[k])
-            else:       # a function object takes part in at most one registration (see assumptions)
-                free = [j for j in range(nf[k]) if j not in regd[k]]
-                if not free:
-                    continue
-                j = rng.choice(free)
-                regd[k].add(j)
+            # any decorator on any function object: the same function may be offered again, under
+            # its own (taken) name, under a second name, as feature and as command
+            j = rng.randrange(nf[k])
             ops.append([k, "a", i, j])
     return {"k": "inter", "n": n, "ops": ops}
 
@@ -795,7 +825,10 @@ class C19(core.Property):
                    "C19_refuted_falsy", "C19_refuted", "C19_reference_agrees", "C19_nonvacuous",
                    "C19_unrepaired_refuted", "creation_changes_nothing", "world_reject_is_identity",
                    "world_at_most_one_handler", "world_history_atomic", "world_creation_silent", "mstep_frame",
-                   "wstep_refines", "wrun_refines", "C19_two_phase", "C19_two_phase_nonvacuous"]
+                   "wstep_refines", "wrun_refines", "C19_two_phase", "C19_two_phase_nonvacuous",
+                   "taken_feature_refused", "taken_command_refused", "accept_thread_frame_other",
+                   "accept_thread_frame_wrapper", "mark_function_marks_every_alias",
+                   "C19_same_function_again", "C19_taken_name_refused_whatever_is_offered"]
     coq_targets = ["Props/C19.vo", "Extract/ExtractC19.vo"]
     rule = ("sequences of decorated definitions over {feature, command} x {fresh, taken, '', whitespace, None} x "
             "{no, valid, wrong-type options} x {sync, async} x {no thread, thread above, thread below}; a case is "
@@ -805,8 +838,8 @@ class C19(core.Property):
                     "harness/c19.py (generators, snapshots, the hand-written oracle table for the options check)",
                     "modelled not verified: str.strip/isspace, dict with str/None keys, inspect.signature / "
                     "get_type_hints (abstract signature), lsprotocol/cattrs type check (oracle bit)"]
-    assumptions = ["a function object takes part in at most one registration (a `def` statement per handler); "
-                   "decorators may be created early, applied late, more than once or never",
+    assumptions = ["function objects are identities with mutable attributes and may be offered any number of "
+                   "times; decorators may be created early, applied late, more than once or never",
                    "the verdict of the options type check is a function of (method, options object) alone: it "
                    "does not depend on earlier registrations on this or any other server of the process "
                    "(modelling assumption, checked by the multi-server histories of the correspondence run)",
@@ -839,6 +872,7 @@ class C19(core.Property):
         # two-phase API: creations and applications interleaved; several servers in one process
         cases.extend(inter_priming())
         cases.extend(inter_exhaustive())
+        cases.extend(inter_reuse())
         for _ in range(chk.n(1200, 15000)):
             cases.append(inter_random(rng))
         # the registration-shape product (C14 half), also run here
